@@ -50,7 +50,7 @@ def run(tier, seed):
     for h in range(nh):
         rng = r.rng
         docs = histgen.initial_docs(rng)
-        if rng.random() < 0.4:
+        if rng.random() < 0.4 or h % 5 == 0:
             # a hub module with no fixture of its own: it only re-exports (`from .fx import *`), and the sub conftest
             # gets its imported fixtures through it - edits of the hub change imports and nothing else
             hub = histgen.Doc("a/hub.py")
@@ -89,6 +89,16 @@ def run(tier, seed):
         for s in range(steps):
             p = rng.choice(paths)
             nd, kind = histgen.mutate(rng, cur[p])
+            if h % 5 == 0 and s in (2, 5) and "a/hub.py" in cur:
+                # (fixed steps of every fifth history: the hub's only statement, its import, goes and comes back)
+                import copy
+                p = "a/hub.py"
+                nd = cur[p].clone(); kind = "toggle_import"
+                imp = [bi for bi, b in enumerate(nd.blocks) if b["k"] == "raw" and "import" in b["text"]]
+                if imp:
+                    nd.blocks.pop(imp[0])
+                else:
+                    nd.blocks.insert(0, {"k": "raw", "text": "from .fx import *"})
             kinds.append(kind)
             cur[p] = nd
             t, _ = nd.render()
